@@ -69,6 +69,14 @@ func (e *c09Env) runBody(c c09Case) *Violation {
 		}
 		reply, _ = io.ReadAll(resp.Body)
 		resp.Body.Close()
+	case "http-chunked":
+		// a body of undeclared length (Transfer-Encoding: chunked), as streaming clients and some proxies send it
+		resp, err := http.Post(e.srv.URL, "application/json", onlyReader{strings.NewReader(c.Body)})
+		if err != nil {
+			return nil
+		}
+		reply, _ = io.ReadAll(resp.Body)
+		resp.Body.Close()
 	}
 	calls := e.api.Snapshot()
 	return checkHTTPReply([]byte(c.Body), reply, calls)
@@ -504,12 +512,12 @@ func c09Classes(body string) (bool, []string) {
 	return nt, cl
 }
 
-const c09Rule = "bodies from a JSON-RPC grammar (single/batch/empty/padded; ids absent/null/int/fraction/exponent/string/invalid; params absent/null/array/object/wrong arity/wrong types; registered/aliased/unknown/internal methods) plus byte-level mutations, through HandleRequest, real HTTP and raw WebSocket frames. Non-trivial = batch with >=2 elements of different id kinds, or a notification or invalid id inside a batch, or a string/fractional id; distinct by hash of (transport, body)"
+const c09Rule = "bodies from a JSON-RPC grammar (single/batch/empty/padded; ids absent/null/int/fraction/exponent/string/invalid; params absent/null/array/object/wrong arity/wrong types; registered/aliased/unknown/internal methods) plus byte-level mutations, through HandleRequest, real HTTP (declared length and chunked) and raw WebSocket frames; a notification whose handler runs is never answered, whatever the handler returns. Non-trivial = batch with >=2 elements of different id kinds, or a notification or invalid id inside a batch, or a string/fractional id; distinct by hash of (transport, body)"
 
 func TestC09(t *testing.T) {
 	rec := NewRec("C09", c09Rule)
 	defer rec.Finish(t)
-	rec.RequireClass("batch_with_notification", "batch_with_invalid_id", "fraction_id", "string_id", "body_malformed", "body_empty", "body_emptybatch", "batch_all_notifications", "transport_http", "transport_ws")
+	rec.RequireClass("batch_with_notification", "batch_with_invalid_id", "fraction_id", "string_id", "body_malformed", "body_empty", "body_emptybatch", "batch_all_notifications", "transport_http", "transport_http-chunked", "transport_ws")
 	env := newC09Env()
 	defer env.Close()
 
@@ -580,6 +588,9 @@ func TestC09(t *testing.T) {
 				if thorough() || (i+j)%3 == 0 {
 					run(t, c09Case{Transport: "http", Body: b})
 				}
+				if thorough() || (i+j)%3 == 1 {
+					run(t, c09Case{Transport: "http-chunked", Body: b})
+				}
 				if !thorough() && j > 3 {
 					continue
 				}
@@ -593,7 +604,7 @@ func TestC09(t *testing.T) {
 			}
 		}
 		for _, m := range []string{"größe.加", "tab\tname", strings.Repeat("long", 80), "T.Größe", "T.\u0001x", strings.Repeat("T.VeryLongMethodName", 20)} {
-			for _, tr := range []string{"inproc", "http"} {
+			for _, tr := range []string{"inproc", "http", "http-chunked"} {
 				run(t, c09Case{Transport: tr, Body: `{"jsonrpc":"2.0","id":7,"method":` + string(mustJSON(m)) + `,"params":[1,2]}`})
 			}
 			run(t, c09Case{Transport: "ws", Frames: []string{`{"jsonrpc":"2.0","id":8,"method":` + string(mustJSON(m)) + `,"params":[1,2]}`}})
@@ -601,11 +612,12 @@ func TestC09(t *testing.T) {
 		for _, b := range []string{"", " ", "[]", "[ ]", "{", "[", "}", "nul", `{"jsonrpc":"2.0","id":1,"method":"T.Add","params":[1,2]`, "[1]", "[1,2]", "5", `"x"`, "null", "{}", "[{}]", "[null]", "[[]]"} {
 			run(t, c09Case{Transport: "inproc", Body: b})
 			run(t, c09Case{Transport: "http", Body: b})
+			run(t, c09Case{Transport: "http-chunked", Body: b})
 		}
 	})
 
 	rec.Rapid(t, "rapid", func(rt *rapid.T) {
-		tr := rapid.SampledFrom([]string{"inproc", "inproc", "inproc", "inproc", "inproc", "inproc", "inproc", "inproc", "inproc", "inproc", "inproc", "inproc", "inproc", "inproc", "inproc", "inproc", "inproc", "http", "http", "ws"}).Draw(rt, "transport")
+		tr := rapid.SampledFrom([]string{"inproc", "inproc", "inproc", "inproc", "inproc", "inproc", "inproc", "inproc", "inproc", "inproc", "inproc", "inproc", "inproc", "inproc", "inproc", "inproc", "inproc", "http", "http", "http-chunked", "ws"}).Draw(rt, "transport")
 		if tr == "ws" {
 			n := rapid.IntRange(1, 6).Draw(rt, "nframes")
 			fr := make([]string, n)
